@@ -35,21 +35,6 @@ def exampleScore : Score :=
 example : WrittenScore exampleScore :=
   ⟨by decide, by decide, by decide, by decide⟩
 
-private theorem lines_sorted (beats : Int → Rat) (mnum : Int → Int) (ts : List TSig)
-    (h : (ts.map fun x => dec4 (beats x.t)).Pairwise (· < ·)) :
-    (ts.map (tsLineOf beats mnum)).Pairwise (fun a b => a.timeB ≤ b.timeB) := by
-  rw [List.pairwise_map] at h ⊢
-  exact h.imp (fun hab => le_of_lt hab)
-
-private theorem min_zero_lipschitz (a b : Rat) : |min a 0 - min b 0| ≤ |a - b| := by
-  have h1 := le_abs_self (a - b)
-  have h2 := neg_abs_le (a - b)
-  rcases le_total a 0 with ha | ha <;> rcases le_total b 0 with hb | hb
-  · rw [min_eq_left ha, min_eq_left hb]
-  · rw [min_eq_left ha, min_eq_right hb, abs_le]; constructor <;> linarith
-  · rw [min_eq_right ha, min_eq_left hb, abs_le]; constructor <;> linarith
-  · rw [min_eq_right ha, min_eq_right hb, sub_zero, abs_zero]; exact abs_nonneg _
-
 /-- **quarters_recovered.**  For every written score, every time `o` at or after the first time signature:
     the importer's beats→quarters map, built from the time-signature lines of the file and evaluated at the
     four-decimal beat time of `o`, is the true position of `o` in quarters plus the rounding of that beat
@@ -65,7 +50,7 @@ theorem quarters_recovered (sc : Score) (wf : WrittenScore sc) (mnum : Int → I
   rw [hts] at hpw hsorted hden hat
   have hats := hats_of_small_divs sc.divs wf.divs_pos wf.divs_small sc.beats rest s0 hsorted hpw hden
   have hseg := segOK_of_small_divs sc.divs wf.divs_pos wf.divs_small sc.beats rest s0 hsorted hpw hden o ho
-  have hls := lines_sorted sc.beats mnum (s0 :: rest) hats
+  have hls := C08M.lines_sorted sc.beats mnum (s0 :: rest) hats
   rw [tsLines_eq, hts]
   rw [List.map_cons] at hls ⊢
   rw [beatsToQuarters_rec _ _ hls]
@@ -273,7 +258,7 @@ theorem onset_roundtrip (sc : Score) (wf : WrittenScore sc) (mnum : Int → Int)
         _ = 1 / (5000 * (sf.den : Rat)) := by field_simp; ring
     exact (abs_add_le _ _).trans (add_le_add h1 (le_refl _))
   have hmin : |min (beatsToQuarters (sc.tsLines mnum) (dec4 (sc.beats of))) 0 - min (sc.quarters of) 0|
-      ≤ |beatsToQuarters (sc.tsLines mnum) (dec4 (sc.beats of)) - sc.quarters of| := min_zero_lipschitz _ _
+      ≤ |beatsToQuarters (sc.tsLines mnum) (dec4 (sc.beats of)) - sc.quarters of| := C08M.min_zero_lipschitz _ _
   apply position_roundtrip D sc.divs den wf.divs_pos hden rel (barTime (sc.tsLines mnum) maxTime n)
     (min (beatsToQuarters (sc.tsLines mnum) (dec4 (sc.beats of))) 0) (sc.quarters ms) (min (sc.quarters of) 0) z hgrid
   have hDnn : (0 : Rat) ≤ (D : Rat) := by positivity
